@@ -83,13 +83,31 @@ func genModel(t *tape.Tape, thorough bool) []MClass {
 	var model []MClass
 	type decl struct{ pkg, cls, fn string }
 	var decls []decl
+	usedCls := map[string]bool{}
 	for i := 0; i < nc; i++ {
 		c := MClass{NodeName: clsNames[i], Package: pkgs[t.Pick(len(pkgs))], Type: "Class"}
+		if i > 0 && t.Bool(1, 5) {
+			// the same simple class name again, in another package if possible
+			c.NodeName = clsNames[t.Pick(i)]
+		}
+		if t.Bool(1, 20) {
+			c.NodeName = c.NodeName + "\"q" // quoted names must be escaped in DOT
+		}
+		for k := 0; usedCls[c.Package+"."+c.NodeName] && k < len(pkgs); k++ {
+			c.Package = pkgs[k]
+		}
+		if usedCls[c.Package+"."+c.NodeName] {
+			c.NodeName = clsNames[i] + "Z"
+		}
+		usedCls[c.Package+"."+c.NodeName] = true
 		nm := t.Int(0, maxMethods)
 		for j := 0; j < nm; j++ {
 			name := fmt.Sprintf("m%d", j)
 			if t.Bool(1, 12) {
 				name = fmt.Sprintf("m\"%d", j) // names containing quotes must be escaped in DOT
+			}
+			if j == 0 && t.Bool(1, 10) {
+				name = c.NodeName // a constructor: function named like its class
 			}
 			c.Functions = append(c.Functions, MFunc{Name: name})
 			decls = append(decls, decl{c.Package, c.NodeName, name})
@@ -118,6 +136,9 @@ func genModel(t *tape.Tape, thorough bool) []MClass {
 				n = t.Int(0, 3)
 			default:
 				n = t.Int(1, 4)
+			}
+			if t.Bool(1, 25) {
+				n = t.Int(6, 10) // high fan-out: more direct callees than the whole expansion budget
 			}
 			if shape == 2 && idx < len(decls) {
 				// chain edge to the next declared method: deep call trees that exceed the budget
@@ -216,7 +237,7 @@ func genCGScenario(t *tape.Tape, tier string) *CGScenario {
 				op.Root = pickRoot(t, model)
 			default:
 				op.Kind = "callByFiles"
-				na := t.Int(0, 4)
+				na := t.Int(0, 6)
 				verbs := []string{"GET", "POST", "PUT", "DELETE"}
 				for a := 0; a < na; a++ {
 					c := model[t.Pick(len(model))]
@@ -231,10 +252,13 @@ func genCGScenario(t *tape.Tape, tier string) *CGScenario {
 				if t.Bool(1, 3) {
 					// DI: calls through class K are redirected to class V
 					op.DI = map[string]string{}
-					nd := t.Int(1, 2)
+					nd := t.Int(1, 3)
 					for d := 0; d < nd; d++ {
 						from := model[t.Pick(len(model))]
 						to := model[t.Pick(len(model))]
+						if t.Bool(1, 4) {
+							to = from // identity entries are what coca's own BuildDIMap produces
+						}
 						op.DI[from.Package+"."+from.NodeName] = to.Package + "." + to.NodeName
 					}
 				}
@@ -727,7 +751,7 @@ func (C03) Budget(tier string) (int, time.Duration) {
 	if tier == "thorough" {
 		return 400000, 25 * time.Minute
 	}
-	return 8000, 4 * time.Minute
+	return 16000, 4 * time.Minute
 }
 func (C03) Generate(t *tape.Tape, tier string) interface{} { return genCGScenario(t, tier) }
 func (C03) Run(ctx *sim.RunCtx, data json.RawMessage) (*sim.Outcome, error) {
@@ -756,7 +780,7 @@ func (C04) Budget(tier string) (int, time.Duration) {
 	if tier == "thorough" {
 		return 400000, 25 * time.Minute
 	}
-	return 8000, 4 * time.Minute
+	return 16000, 4 * time.Minute
 }
 func (C04) Generate(t *tape.Tape, tier string) interface{} { return genCGScenario(t, tier) }
 func (C04) Run(ctx *sim.RunCtx, data json.RawMessage) (*sim.Outcome, error) {
